@@ -112,7 +112,8 @@ def _head_room_serializer():
             return bytes(data)
 
         def incremental_serialize(self, packet):
-            yield bytes(packet) + SEP
+            if packet:                      # (as RawAutoSep, which the model's send side mirrors: nothing for an empty payload)
+                yield bytes(packet) + SEP
 
         def incremental_deserialize(self):
             buf = b""
